@@ -161,6 +161,27 @@ def _none_defaulted(a: ast.AST) -> Optional[str]:
     return None
 
 
+def _none_default_select(f: FuncInfo, name: str, before: ast.AST) -> Optional[str]:
+    """`if X is None: <name> = 0.0 else: <name> = X` (either orientation) is the only definition of <name> and precedes
+    `before`: the parameter X, else None."""
+    stores = [n for n in ast.walk(f.node) if isinstance(n, ast.Name) and n.id == name and isinstance(n.ctx, ast.Store)]
+    if len(stores) != 2 or name in [a.arg for a in f.node.args.args + f.node.args.kwonlyargs]:
+        return None
+    for n in ast.walk(f.node):
+        if isinstance(n, ast.If) and len(n.body) == 1 and len(n.orelse) == 1 and isinstance(n.test, ast.Compare) \
+                and len(n.test.ops) == 1 and isinstance(n.test.left, ast.Name) and isinstance(n.test.comparators[0], ast.Constant) \
+                and n.test.comparators[0].value is None and isinstance(n.test.ops[0], (ast.Is, ast.IsNot)):
+            x = n.test.left.id
+            zero_arm, same_arm = (n.body[0], n.orelse[0]) if isinstance(n.test.ops[0], ast.Is) else (n.orelse[0], n.body[0])
+            ok_ = all(isinstance(s_, ast.Assign) and len(s_.targets) == 1 and isinstance(s_.targets[0], ast.Name) and s_.targets[0].id == name
+                      for s_ in (zero_arm, same_arm))
+            if ok_ and isinstance(zero_arm.value, ast.Constant) and zero_arm.value.value in (0, 0.0) and not isinstance(zero_arm.value.value, bool) \
+                    and isinstance(same_arm.value, ast.Name) and same_arm.value.id == x \
+                    and not any(isinstance(m, ast.Name) and m.id == x and isinstance(m.ctx, ast.Store) for m in ast.walk(f.node)):
+                return x
+    return None
+
+
 def r_kernel_call_typestates(ctx, rules=('R15.1', 'R16.2', 'R18.4'), only_funcs: Optional[Set[str]] = None) -> List[Ob]:
     wm = wrapper_model(ctx)
     obs: List[Ob] = []
@@ -213,6 +234,8 @@ def r_kernel_call_typestates(ctx, rules=('R15.1', 'R16.2', 'R18.4'), only_funcs:
                 if role == 'max_tau' and r_tau:
                     t = f"{f.name}: max_tau argument of kernel `{kname}` has passed `if max_tau is None: max_tau = 0.0`"
                     good = _none_defaulted(a) is not None       # `0.0 if max_tau is None else max_tau` at the call
+                    if isinstance(a, ast.Name) and _none_default_select(f, a.id, call) is not None:
+                        good = True                             # ... or the same selection as a two-armed `if` into a local
                     if isinstance(a, ast.Name):
                         for n in ast.walk(f.node):
                             if isinstance(n, ast.If) and isinstance(n.test, ast.Compare) and isinstance(n.test.left, ast.Name) \
